@@ -72,7 +72,9 @@ func (s *solver) start() error {
 	s.defined = make(map[uint32]bool)
 	s.dead = false
 	if strings.Contains(s.argv[0], "z3") {
-		s.send(fmt.Sprintf("(set-option :timeout %d)", s.timeMS))
+		if s.timeMS > 0 {
+			s.send(fmt.Sprintf("(set-option :timeout %d)", s.timeMS))
+		}
 	} else if strings.Contains(s.argv[0], "cvc5") {
 		s.send("(set-logic QF_BV)")
 	}
